@@ -292,7 +292,8 @@ def _run(ctx, bins, tmp):
             est = predicted / rate * 1.4 + 5
         else:
             est = 1
-        if est > ctx.deadline.left() - (15 if ctx.quick else 60):
+        too_late = ctx.quick and not required and time.time() - ctx.t0 > 70  # quick: optional batches only while it is still quick
+        if too_late or est > ctx.deadline.left() - (15 if ctx.quick else 60):
             batch_log.append(dict(batch=label, started=False, estimated_wall_s=round(est, 1), left_s=round(ctx.deadline.left(), 1)))
             common.log("C49: %-45s not started: estimated %.0fs, %.0fs left" % (label, est, ctx.deadline.left()))
             if required:
@@ -408,7 +409,7 @@ def _run(ctx, bins, tmp):
                                                 what="same set of final observations with and without pruning (bound 2; 3 workers in quick: bound 1)")
         # (2) real threads instead of fibers, bound 1
         sel = [c for c in ok_cfgs if done_bound[cfg_name(c)] >= 1 and
-               ((c["base"] and (c["workers"] == 2 or c["sizes"] == "1")) if ctx.quick else True)]
+               ((c["base"] and (c["workers"] == 2 or (c["sizes"] == "1" and c["mode"] == "futex"))) if ctx.quick else True)]
         tasks = [dict(c=c, bounds=[1], shard=0, nshards=1, backend="thr", tag="thr") for c in sel]
         tasks.sort(key=lambda t: -weight(t["c"], 0))
         res = R.run_tasks(tasks) if not ctx.deadline.over() else []
@@ -517,6 +518,7 @@ def _run(ctx, bins, tmp):
         tsan_pass=[dict(mode=t["mode"], free_running_runs=t["runs"], reports=t["reports"], summaries=t["summaries"][:5]) for t in tsan],
         samples=samples)
     assumptions += [
+        "plain (non-atomic) code runs atomically with the synchronisation operation that precedes it: the exploration is complete for data-race-free code only; unsynchronised accesses are what the free-running ThreadSanitizer pass is for",
         "sequential consistency: the scheduler serialises the threads, reorderings allowed by memory orders weaker than seq_cst are not explored (the ThreadSanitizer pass covers missing synchronisation, not reordering of relaxed atomics)",
         "no spurious wake-ups of condition variables / futexes; notify_one/futex_wake with fewer wake-ups than waiters is not enumerated (the harness aborts with UNMODELLED if it happens)",
         "yield parks a spinning thread until an object it read is modified; checked at every livelock verdict (STATEFUL-SPIN otherwise)",
